@@ -74,10 +74,13 @@ JsrUnsupported(T) ==
             LET t == T[w].routes[r].pt[i] IN
             t.verb # "" \/ t.pre # "" \/ t.suf # "" \/ (t.kind = "tail" /\ i # Len(T[w].routes[r].pt))
 
-\* ---------- container.go:421 computeAllowedMethods (OPTIONS filter, CORS preflight) ----------
-\* a regular-expression walk over the WebServices and their routes; since the repair of this work only
-\* over the WebService the router selects for the URL (OptionsSelectedOnly = TRUE); FALSE = legacy: all
-CONSTANT OptionsSelectedOnly
+\* ---------- container.go computeAllowedMethods (OPTIONS filter, CORS preflight) ----------
+\* Since the second repair (OptionsViaRouter = TRUE) the configured router is asked, method by method, whether it
+\* answers 404 / 405 for the URL (AllowedMethodsRouter in MC_Routing, which has the request constructor).
+\* Before (OptionsViaRouter = FALSE, kept as counter-model): a regular-expression walk over the WebServices and
+\* their routes, a second matcher next to the router; after the first repair only over the WebService the router
+\* selects for the URL (OptionsSelectedOnly = TRUE), originally over all of them (FALSE).
+CONSTANTS OptionsSelectedOnly, OptionsViaRouter
 AllowedMethodsImpl(T, url, selected) ==
   LET svcs == IF OptionsSelectedOnly /\ selected # 0 THEN {selected} ELSE 1..Len(T) IN
   UNION {{T[w].routes[r].m : r \in {x \in 1..Len(T[w].routes) :
